@@ -1695,6 +1695,15 @@ func (dryRunDriver) ExecContext(context.Context, string, ...any) (sql.Result, er
 	return nil, nil
 }
 
+// ScanStmts implements the migrate.StmtScanner interface by delegating to the wrapped driver,
+// so that a dry-run splits the files into the same statements as the real run does.
+func (d dryRunDriver) ScanStmts(input string) ([]*migrate.Stmt, error) {
+	if s, ok := d.Driver.(migrate.StmtScanner); ok {
+		return s.ScanStmts(input)
+	}
+	return migrate.Stmts(input)
+}
+
 // Lock implements the schema.Locker interface.
 func (dryRunDriver) Lock(context.Context, string, time.Duration) (schema.UnlockFunc, error) {
 	// We dry-run, we don't execute anything. Locking is not required.
